@@ -34,7 +34,7 @@ def _read(repo, rel, cache):
     return cache[rel]
 
 
-def build(repo, unit_dir, defines=None, mutate=None):
+def build(repo, unit_dir, defines=None, mutate=None, force_external=None, extra_fns=None):
     """returns Built.  `defines`: dict of template substitutions in head/spec (e.g. SYM).
     `mutate`: optional callable(fid, text) -> text applied to each *copied* function text
     (used by the vacuity guard only)."""
@@ -42,6 +42,8 @@ def build(repo, unit_dir, defines=None, mutate=None):
     rewrites = load_rewrites(os.path.join(unit_dir, "normalise.toml"))
     contracts = parse_contracts(os.path.join(unit_dir, "contracts.vc"))
     b = Built()
+    b.degraded = {}
+    force_external = force_external or {}
     b.contracts = contracts
     cache = {}
     em = Emitter()
@@ -80,6 +82,8 @@ def build(repo, unit_dir, defines=None, mutate=None):
         for nm in g["names"]:
             flist.append({"id": g["prefix"] + nm, "file": g["file"], "impl": g.get("impl", ""),
                           "out_impl": g["out_impl"], "name": nm})
+    for f in (extra_fns or []):
+        flist.append(f)
     for f in flist:
         key = f["out_impl"]
         if key not in groups:
@@ -123,7 +127,7 @@ def build(repo, unit_dir, defines=None, mutate=None):
             if c is not None:
                 used_contracts.add(fid)
             em.w(f"{ind}// from {f['file']}:{toks[fn_kw].line}  [{fid}]\n")
-            emit_fn(em, fid, ftoks, kw2, bo2, bc2, c, indent=ind)
+            emit_fn(em, fid, ftoks, kw2, bo2, bc2, c, indent=ind, force_external=force_external.get(fid), degraded=b.degraded)
             em.w("\n")
             b.fns[fid] = {"file": f["file"], "line_start": toks[start].line, "line_end": toks[bc].line,
                           "orig": orig_text, "norm": L.sigtext(ftoks)}
@@ -136,11 +140,21 @@ def build(repo, unit_dir, defines=None, mutate=None):
     b.text = em.text()
     b.clause_lines = em.clause_lines
     b.fn_lines = em.fn_lines
-    for c in contracts.values():
+    for fid_, c in contracts.items():
         for cl in c.clauses:
+            if not cl.tag:
+                cl.tag = f"{fid_}::fn::{cl.kind}#{cl.name}"
             b.clauses[cl.tag] = cl
-        for d in list(c.closures.values()) + list(c.loops.values()):
+        for key, d in c.closures.items():
+            label = d.get("label") or (("_" + str(key).replace(",", "_").replace("#", "").replace("()", "unit")) if not isinstance(key, int) else str(key))
             for cl in d["clauses"]:
+                if not cl.tag:
+                    cl.tag = f"{fid_}::closure{label}::{cl.kind}#{cl.name}"
+                b.clauses[cl.tag] = cl
+        for key, d in c.loops.items():
+            for cl in d["clauses"]:
+                if not cl.tag:
+                    cl.tag = f"{fid_}::loop{key}::{cl.kind}#{cl.name}"
                 b.clauses[cl.tag] = cl
     for rw in rewrites:
         if rw.count != "any" and rw.fired != rw.count and not os.environ.get("VT_LAX"):
@@ -164,7 +178,7 @@ def check_faithful(b):
         got = L.sigtext(L.lex(stripped))
         want = b.fns[fid]["norm"]
         c = b.contracts.get(fid)
-        if c is not None and c.external_body:
+        if (c is not None and c.external_body) or fid in b.degraded:
             # only the signature is copied
             sig_end = got.rfind("{")
             if not want.startswith(got[:sig_end].strip()):
